@@ -27,6 +27,7 @@ their continuation and are counted individually.  `./check C18 --replay FILE` re
 """
 import contextlib
 import copy
+import errno
 import hashlib
 import io
 import json
@@ -38,7 +39,7 @@ import types
 from lib import repo, tla
 
 INDEX = "index.wtml"
-ACTS = ["Start", "NextImage", "BeginPut", "EndPut", "Rename", "Finish", "Crash", "Fail"]
+ACTS = ["Start", "NextImage", "BeginPut", "EndPut", "Rename", "Finish", "Crash", "Fail", "Refuse"]
 STORE_CFG = "toasty-pipeline-config.yaml"
 FAKE_SOURCE = "_c18_fake"
 
@@ -149,8 +150,11 @@ class Plan(object):
                 self.puts.append({"img": cur["cur"], "file": cur["order"][cur["k"] - 1], "pre": cur, "mid": st, "post": None})
             elif act == "EndPut":
                 self.puts[-1]["post"] = st
-            elif act in ("Crash", "Fail"):
-                if cur["pc"] == "writing":
+            elif act in ("Crash", "Fail", "Refuse"):
+                if act == "Refuse":
+                    where, ordinal = "open", len(self.puts)
+                    self.puts.append({"img": cur["cur"], "file": cur["order"][cur["k"] - 1], "pre": cur, "mid": None, "post": None})
+                elif cur["pc"] == "writing":
                     where, ordinal = "during", len(self.puts) - 1
                 elif cur["k"] <= len(cur["order"]):
                     where, ordinal = "entry", len(self.puts)
@@ -182,6 +186,37 @@ class TransferFailed(OSError):
 
 def content(img, fn):
     return ("%s/%s|" % (img, fn)).encode() + bytes(range(65, 65 + 20))
+
+
+@contextlib.contextmanager
+def refuse_creation(prefix, exc, on_hit):
+    """While active, opening any path below `prefix` for writing / creation raises `exc` (builtins.open, io.open, os.open)."""
+    import builtins
+    prefix = os.path.abspath(prefix) + os.sep
+    real_open, real_io_open, real_os_open = builtins.open, io.open, os.open
+
+    def below(f):
+        try:
+            return os.path.abspath(os.fsdecode(os.fspath(f))).startswith(prefix)
+        except TypeError:
+            return False            # an integer file descriptor
+
+    def open_(file, mode="r", *a, **kw):
+        if set(str(mode)) & set("wax+") and below(file):
+            on_hit()
+            raise exc
+        return real_open(file, mode, *a, **kw)
+
+    def os_open(path, flags, *a, **kw):
+        if flags & (os.O_CREAT | os.O_WRONLY | os.O_RDWR) and below(path):
+            on_hit()
+            raise exc
+        return real_os_open(path, flags, *a, **kw)
+    builtins.open, io.open, os.open = open_, open_, os_open
+    try:
+        yield
+    finally:
+        builtins.open, io.open, os.open = real_open, real_io_open, real_os_open
 
 
 class FaultStream(object):
@@ -432,7 +467,9 @@ class Bench(object):
                 flt = plan.fault if (plan.fault and plan.fault["ordinal"] == n) else None
                 exc = None
                 if flt:
-                    exc = SimulatedCrash("crash") if flt["kind"] == "Crash" else TransferFailed("transfer failed")
+                    exc = (SimulatedCrash("crash") if flt["kind"] == "Crash" else
+                           TransferFailed(errno.ENOSPC, "No space left on device") if flt["kind"] == "Refuse" else
+                           TransferFailed("transfer failed"))
                 if flt and flt["where"] == "entry":
                     st["injected"] = True
                     raise exc
@@ -447,7 +484,13 @@ class Bench(object):
                         compare(exp["mid"], "while put #%d %s is writing (%s store model)"
                                 % (n + 1, list(path), "atomic" if model_atomic else "in-place"))
                 stream = FaultStream(source, first_read, after, exc)
-                self._real.put_item(*path, source=stream)
+                if flt and flt["where"] == "open":
+                    # the store refuses to create the destination: every open-for-writing of a path below the item's
+                    # store directory raises, INSIDE the real put_item (whatever file name it writes to first)
+                    with refuse_creation(os.path.join(bench.store, path[0]), exc, lambda: st.__setitem__("injected", True)):
+                        self._real.put_item(*path, source=stream)
+                else:
+                    self._real.put_item(*path, source=stream)
                 if not stream.started and st["sync"]:
                     drift("put_item did not read its source through read()")
                 nxt = plan.puts[n + 1] if n + 1 < len(plan.puts) else None
@@ -601,6 +644,8 @@ class Walker(object):
         f = plan.fault
         if f is None:
             return "run"
+        if f["kind"] == "Refuse":
+            return "store refusing (ENOSPC) to create the file for %s/%s" % (f["image"], f["file"])
         return "%s %s the transfer of %s/%s" % ("crash" if f["kind"] == "Crash" else "failed transfer",
                                                 {"entry": "before", "during": "during", "exit": "after"}[f["where"]], f["image"], f["file"])
 
@@ -730,8 +775,56 @@ def replay_graph(ctx, graph, atomic, share, tag):
 
 # ------------------------------------------------------------------------------------------------
 
-def dump_graph(ctx, tlc, configs, budget, atomic, name):
-    r = tlc(name, configs, cfg(budget, atomic, ["TypeOK"], [], emit=True), workers=1)
+class FreePlan(object):
+    """A run without a spec behaviour behind it (physical scenario): only the listings are imposed."""
+
+    def __init__(self, img, listing):
+        self.queue = [img]
+        self.images = [{"img": img, "listing": list(listing), "order": None, "pre": None}]
+        self.puts = []
+        self.fault = None
+        self.start = {"faults": 0}
+
+
+def long_name_scenario(ctx):
+    """Refuse, physically: a file whose name is legal but so long that name + any temporary suffix exceeds NAME_MAX.
+    Whether the store can take it depends on the put_item implementation (either outcome is fine); what is judged
+    is the property's safety half on the real disk afterwards."""
+    root = ctx.mkdtemp("longname")
+    try:
+        name_max = os.pathconf(root, "PC_NAME_MAX")
+    except (OSError, ValueError):
+        name_max = 255
+    long = "x" * (name_max - 8) + ".png"             # legal by itself; 4 more characters are not
+    outcomes = []
+    for n, listing in enumerate(([INDEX, long], [long, INDEX])):
+        b = Bench(os.path.join(root, "b%d" % n), {"imgL": [long, INDEX]})
+        snap = {"work/approved/imgL": None}
+        for f in (long, INDEX):
+            snap["work/approved/imgL/" + f] = content("imgL", f)
+        b.restore(snap)
+        res = b.run(FreePlan("imgL", listing), True)
+        ctx.count()
+        real = b.real_state()
+        st, loc = real["store"]["imgL"], real["loc"]["imgL"]
+        outcomes.append("%s%s" % (res["outcome"], " (%s)" % res["error"].split(":")[0] if res["error"] else ""))
+        rp = {"files": {"imgL": ["x * %d + .png" % (name_max - 8), INDEX]}, "listing": ["<long>" if f == long else f for f in listing],
+              "observed": {"store": {("<long>" if f == long else f): v for f, v in st.items()}, "loc": loc}}
+        for k, msg in res["alarms"]:
+            ctx.violation(k, msg.replace(long, "<%d-character name>" % len(long)) + " (image with a %d-character file name, no injected fault)" % len(long), rp)
+        if b.real_io.check_exists("imgL", INDEX) and st[long] != "complete":
+            ctx.violation(K_INDEX_INCOMPLETE, "after publish() of an image with a %d-character file name (%s) the store holds imgL/index.wtml "
+                          "while that file is %s" % (len(long), outcomes[-1], st[long]), rp)
+        if loc != "approved" and any(v != "complete" for v in st.values()):
+            ctx.violation(K_PUBLISHED, "after publish() of an image with a %d-character file name (%s) its directory is %s while the store has %s"
+                          % (len(long), outcomes[-1], loc, sorted(rp["observed"]["store"].items())), rp)
+    ctx.note("long_name_scenario", {"name_length": len(long), "name_max": name_max, "publish_outcomes": outcomes,
+                                    "judged": "safety on the real disk only (index.wtml / published imply all files complete)"})
+
+
+def dump_graph(ctx, tlc, configs, budget, atomic, name, r=None):
+    if r is None:
+        r = tlc(name, configs, cfg(budget, atomic, ["TypeOK"], [], emit=True), workers=1)
     edges = r.json_lines("E")
     if len(edges) != r.generated - len(configs):
         ctx.machinery("edge dump incomplete: %d edges printed, TLC generated %d states" % (len(edges), r.generated))
@@ -812,9 +905,14 @@ def run(ctx):
         return replay_one(ctx, tlc, rep, atomic)
 
     jobs = {}
+    gsrc = {}          # suite -> theorem job whose run also dumps the graph (same store model and budget)
     for tag, budget, configs in suites:
-        jobs["MCPublish_%s_atomic_f%d" % (tag, budget)] = (configs, cfg(budget, True, Q_INV + ["QSkippedIsWhole"], PROPS), dict(workers=4))
-        jobs["MCPublish_%s_inplace_f1" % tag] = (configs, cfg(1, False, Q_INV, PROPS), dict(workers=4))
+        ja, ji = "MCPublish_%s_atomic_f%d" % (tag, budget), "MCPublish_%s_inplace_f1" % tag
+        ea, ei = atomic, (not atomic and budget == 1)
+        jobs[ja] = (configs, cfg(budget, True, Q_INV + ["QSkippedIsWhole"], PROPS, emit=ea), dict(workers=1 if ea else 4))
+        jobs[ji] = (configs, cfg(1, False, Q_INV, PROPS, emit=ei), dict(workers=1 if ei else 4))
+        if ea or ei:
+            gsrc[tag] = ja if ea else ji
     tag0, budget0, configs0 = suites[0]
     jobs["MCPublish_%s_inplace_f2_refuted" % tag0] = (configs0, cfg(2, False, Q_INV, PROPS), dict(workers=1, expect_violation=True, count=False))
     if not ctx.quick:
@@ -824,9 +922,13 @@ def run(ctx):
     with ThreadPoolExecutor(4) as ex:
         futs = {k: ex.submit(tlc, k, v[0], v[1], **v[2]) for k, v in jobs.items()}
         gfuts = {tag: ex.submit(dump_graph, ctx, tlc, configs, budget, atomic,
-                                "MCPublish_%s_graph_%s_f%d" % (tag, "atomic" if atomic else "inplace", budget)) for tag, budget, configs in suites}
+                                "MCPublish_%s_graph_%s_f%d" % (tag, "atomic" if atomic else "inplace", budget))
+                 for tag, budget, configs in suites if tag not in gsrc}
         res = {k: f.result() for k, f in futs.items()}
         graphs = {k: f.result() for k, f in gfuts.items()}
+    for tag, budget, configs in suites:
+        if tag in gsrc:
+            graphs[tag] = dump_graph(ctx, tlc, configs, budget, atomic, gsrc[tag], r=res[gsrc[tag]])
     r2 = res["MCPublish_%s_inplace_f2_refuted" % tag0]
     if r2.violated not in ("QIndexImpliesAll", "QRefreshSafe"):
         ctx.machinery("TLC was expected to refute QIndexImpliesAll for the in-place store with 2 faults, it reports %r" % (r2.violated,))
@@ -853,6 +955,7 @@ def run(ctx):
                       "distinct_nodes (spec idle state, disk contents)": agg["nodes"], "runs_with_drift": agg["ndrift"],
                       "runs_leaving_stray_store_entries": agg["stray"],
                       "quiescent_states_where_refresh_skips_an_image_whose_index_itself_is_truncated (not claimed by the property)": agg["weak_whole"]}
+    long_name_scenario(ctx)
     ctx.note("graph", gnote)
     ctx.note("replay", rnote)
     ctx.exhaustive = True
